@@ -129,7 +129,7 @@ fn main() {
                 }
                 for &root in &m.vs {
                     let reach = m.reach(root, None);
-                    evals += 12;
+                    evals += 13;
                     // reachability
                     match catch_unwind(AssertUnwindSafe(|| g.reachable_vertices(root))) {
                         Ok(Ok(r)) => { let got = set_of(r.iter().cloned()); if got != reach { report!("reachable_vertices", m, root, got, reach); } }
@@ -143,9 +143,26 @@ fn main() {
                     match catch_unwind(AssertUnwindSafe(|| g.compute_pre_order(root))) {
                         Ok(Ok(o)) => {
                             let pos: BTreeMap<usize, usize> = o.iter().enumerate().map(|(i, v)| (*v, i)).collect();
-                            let ok = o.len() == reach.len() && set_of(o.iter().cloned()) == reach && o[0] == root
+                            let mut ok = o.len() == reach.len() && set_of(o.iter().cloned()) == reach && o[0] == root
                                 && o.iter().skip(1).all(|v| m.pred(*v).iter().any(|p| pos.get(p).map(|pp| pp < &pos[v]).unwrap_or(false)));
-                            if !ok { report!("compute_pre_order", m, root, o, "each reachable vertex once, root first, some predecessor earlier"); }
+                            // it must be the discovery order of SOME depth-first search: the next vertex is an unvisited
+                            // successor of the deepest vertex on the current path that still has one
+                            if ok {
+                                let mut visited = S::new();
+                                let mut stack = vec![root];
+                                visited.insert(root);
+                                for v in o.iter().skip(1) {
+                                    while let Some(&top) = stack.last() {
+                                        if m.succ(top).iter().any(|x| !visited.contains(x)) { break; }
+                                        stack.pop();
+                                    }
+                                    match stack.last() {
+                                        Some(&top) if m.succ(top).contains(v) && !visited.contains(v) => { visited.insert(*v); stack.push(*v); }
+                                        _ => { ok = false; break; }
+                                    }
+                                }
+                            }
+                            if !ok { report!("compute_pre_order", m, root, o, "a depth-first discovery order of the reachable vertices"); }
                         }
                         _ => report!("compute_pre_order", m, root, "error/panic", "Ok"),
                     }
@@ -239,6 +256,19 @@ fn main() {
                         }
                         Ok(Err(e)) => report!("compute_loops", m, root, e.to_string(), exp_loops),
                         Err(_) => report!("compute_loops", m, root, "panic", exp_loops),
+                    }
+                    // loop nesting: an edge outer -> inner exactly when inner's header lies in outer's nodes (headers differ)
+                    match catch_unwind(AssertUnwindSafe(|| g.compute_loop_tree(root))) {
+                        Ok(Ok(t)) => {
+                            let te: BTreeSet<(usize, usize)> = t.edges().iter().map(|e| (e.head(), e.tail())).collect();
+                            let tv = set_of(t.vertices().iter().map(|v| v.index()));
+                            let mut exp = BTreeSet::new();
+                            for (h1, n1) in &exp_loops { for (h2, _) in &exp_loops { if h1 != h2 && n1.contains(h2) { exp.insert((*h1, *h2)); } } }
+                            let expv: S = exp_loops.keys().cloned().collect();
+                            if te != exp || tv != expv { report!("compute_loop_tree", m, root, (tv, te), (expv, exp)); }
+                        }
+                        Ok(Err(e)) => report!("compute_loop_tree", m, root, e.to_string(), "Ok"),
+                        Err(_) => report!("compute_loop_tree", m, root, "panic", "Ok"),
                     }
                     // reducibility of the flow graph reachable from root: removing the back edges leaves no cycle
                     let fe = Model { vs: reach.clone(), es: m.es.iter().filter(|(t, h)| reach.contains(t) && !dom[t].contains(h)).cloned().collect() };
